@@ -26,7 +26,7 @@ Qed.
 
 Theorem dispatch_intended v : dispatch v = intended v.
 Proof.
-  destruct v as [| | | | | |dt n| |k tys meta h| | | | | | | |]; try reflexivity.
+  destruct v as [| | | | | |dt n| |k tys meta h| | | | | | | | |]; try reflexivity.
   destruct k; reflexivity.
 Qed.
 
